@@ -6,6 +6,7 @@ import json, os, re, sys, time
 from common import *
 from report import Report
 import coqgen, cyk
+import contfam
 
 TRUSTED_COMMON = [
   "Coq 8.16.1 kernel incl. its bytecode VM (vm_compute closes per-instance obligations); native_compute is not used",
@@ -24,7 +25,7 @@ def common_stage(rep, need_theorems=True):
                     ("is_hex_digit", "C03 C17"), ("specials", "C03 C17 C18"), ("uninitialized16", "C04 C06 C18"), ("recognized_term", "C04 C06 C18"), ("conflicted_recognition", "C04"),
                     ("parse_table_entry_kind", "C01 C05 C11"), ("dfa_size", "C12"), ("situation", "C12 C01"), ("stack capacity", "C12 C06 C07"), ("default limits", "C12"), ("make_situation_idx", "C01 C11"),
                     ("get_parse_table_idx", "C01"), ("dfa_size_analyzer", "C12"), ("name", "C16 C09 C11"), ("regex", "C03 C17"), ("functor", "C03 C17"), ("pattern parse options", "C03 C17"),
-                    ("skip list", "C19"), ("element", "C19"), ("construct", "C19"), ("emplace_back", "C19")]
+                    ("cbitset", "C01 C03 C04 C06"), ("cvector", "C06 C12"), ("cqueue", "C06 C12"), ("stdex sort", "C01"), ("skip list", "C19"), ("element", "C19"), ("construct", "C19"), ("emplace_back", "C19")]
     relevant = True
     if not ok:
         hit = [pr for key, pr in ANCHOR_PROPS if key in msg]
@@ -34,7 +35,7 @@ def common_stage(rep, need_theorems=True):
     rcf, outf, _ = sh([sys.executable, VERIF + "/tools/frame_facts.py", HEADER, COQ + "/Model/FrameFacts.v"])
     if rep.pid == "C15": rep.oblige("frame-facts-regenerated-from-source (const member functions, no mutable/const_cast/static data, constexpr globals, local lexer instance)", rcf == 0, outf.strip()[:400])
     # full .vo build of what this property's theorems depend on (make -k: an unrelated broken file does not hide them)
-    TIES = {"C01": ["Tab"], "C05": ["Tab"], "C11": ["Tab"], "C03": ["Pat", "Dfa"], "C17": ["Pat"], "C04": ["Ws", "Dfa"], "C12": ["Dfa"],
+    TIES = {"C01": ["Tab", "Cont"], "C05": ["Tab"], "C11": ["Tab"], "C03": ["Pat", "Dfa", "Cont"], "C17": ["Pat"], "C04": ["Ws", "Dfa"], "C12": ["Dfa", "Cont"], "C06": ["Cont"],
             "C09": ["Ws"], "C10": ["Ws"], "C16": ["Verb"]}
     targets = [f"Props/Properties_{rep.pid}.vo"] + [f"Proofs/SourceFactsTie{t}.vo" for t in TIES.get(rep.pid, [])]
     ok, log = coq_make(targets)
@@ -221,6 +222,8 @@ def check_C01(rep):
     d12 = rep.notes.get("d12_instances", [])
     if d12: rep.known_finding(D12_TEXT + f" [{len(d12)} grammar(s) this run, e.g. {run.meta[d12[0]]['rules']}]")
     FX.run_fixed(rep, "big_grammar.cpp", "g++", "-pthread", "verdict-of-a-large-conflict-free-grammar-differs-from-its-language")
+    # the representation below the generator mirror: item sets / FIRST sets are stdex::cbitset words, rule_infos are sorted by stdex::sort
+    rep.notes["container_sequences"] = contfam.run_containers(rep, what=("B", "S"))
     # the DSL glue: symbol lookup by name/id, stable sort by left side, slices - through generated programs
     run3 = h3_stage(rep)
     if run3 is not None:
@@ -878,6 +881,8 @@ def check_C03(rep):
     run = h2_stage(rep)
     if run is None: return rep
     dfa_property(rep, run, "pattern")
+    # character sets ('.', sets, inverted sets) are stdex::cbitset<256> words: whole-set flip()/set() at the word level
+    rep.notes["container_sequences"] = contfam.run_containers(rep, what=("B",))
     rep.cov["rule"] = "patterns: forced shapes (loop followed by the same char, shared prefixes, repetition of groups containing loops, nested {n}, optional before same char), a deterministic-only stream, grammar-directed random patterns (depth <= 5, all operators, sets, ranges, hex escapes, bytes >= 0x80); strings: all strings up to a bound over the pattern's alphabet plus a foreign byte, and random longer ones. Non-trivial = distinct pattern with >= 2 operators on which both verdicts occur."
     return rep
 
@@ -988,6 +993,8 @@ def check_C12(rep):
     FX.run_replay(rep, "D10", fixed=True)
     FX.run_replay(rep, "D10", fixed=True, cxx="clang++", flags="-fsanitize=undefined -fno-sanitize-recover=all")   # limits swept around the need: an overflow by one is an out-of-bounds index
     FX.run_fixed(rep, "cstring_stack.cpp", "clang++", "-fsanitize=undefined -fno-sanitize-recover=all", "fixed-stack-capacity-insufficient-or-overflowed")
+    # fixed-capacity containers at and beyond their capacity: overflow is an exception, never a silent write
+    rep.notes["container_sequences"] = contfam.run_containers(rep, what=("V", "Q"))
     known_D8(rep)          # the stack capacity formula is insufficient with empty reductions (D8) and with recovery tokens (D16): recorded findings
     rep.cov["distinct_nontrivial"] = len(nontriv)
     rep.cov["rule"] = "every accepted pattern of the H2 families: dfa_size_analyzer prediction vs states actually created by the real dfa_builder (nested and large repetition counts included); carrier C (custom limits 24 states / 60 items per state) vs carrier A (default limits) on the same grammars: loud failure or identical table; default limits never overflow. Non-trivial = distinct pattern with a repetition count, or grammar whose construction hits a custom limit. The cstring_buffer stack capacity N+EmptyRulesCount+1: cstring_stack.cpp (grammars without empty rules and recovery: never throws, as proved) and the replays of the known findings D8 / D16."
@@ -1111,6 +1118,8 @@ def check_C06(rep):
     FX.run_fixed(rep, "cstring_stack.cpp", "clang++", "-fsanitize=undefined -fno-sanitize-recover=all", "fixed-stack-capacity-insufficient-or-overflowed")
     FX.run_replay(rep, "D6", fixed=True, cxx="clang++", flags="-fsanitize=address,undefined -fno-sanitize-recover=all")
     FX.run_replay(rep, "D7", fixed=True, cxx="clang++", flags="-fsanitize=address,undefined -fno-sanitize-recover=all")
+    # the library's own tables: every cbitset / cvector / cqueue access is guarded or inside the array (word level)
+    rep.notes["container_sequences"] = contfam.run_containers(rep, what=("B", "V", "Q", "S"))
     known_D8(rep)
     if FX.run_replay(rep, "D17", fixed=False):
         d17 = sorted(rep.notes.get("d17_instances", []), key=int); rep.notes["d17_instances"] = d17
